@@ -121,8 +121,9 @@ def judge_pair(rep, p, obs, route, child_first, trace) -> None:
         rep.violate(f"C15/crash/{a}+{b}", f"allOf of {a} and {b} makes the generator raise", exc=obs["exc"], doc=obs["doc"])
         return
     r = obs["r"]
-    if r != p["r"]:
-        rep.drifted(mode="merge", a=a, b=b, route=tag, model=p["r"], real=r)
+    pred = p["rinl"] if route == "inline" else p["r"]
+    if r != pred:
+        rep.drifted(mode="merge", a=a, b=b, route=tag, model=pred, real=r)
     if route == "ref" and not child_first:
         trace.append({"tid": len(trace) + 1, "a": a, "b": b, "r": r})
     if r == "ERR":
